@@ -803,6 +803,14 @@ def equality_laws(prog):
                             "equality of %s goes through `%s`: it separates −0.0 from 0.0 (and is reflexive on NaN), but the "
                             "arithmetic yields −0.0 for a negative value times zero — `x * zero == zero` and distributivity then "
                             "fail for negative x, with every operation unchanged" % (adt.split("::")[-1], bitwise[0])))
+        elif [x for g in canon.local_bodies(prog, f, ok=lambda h: True, depth=3) if g.terms.ret is not None
+              for x in [strip(g.terms.ret)] + list(mir.subterms(g.terms.ret))
+              if (strip(x)[0] == "bin" and strip(x)[1] in ("Lt", "Le", "Gt", "Ge")) or mir.is_call(strip(x), "abs")]:
+            out.append(inst("LAW", key, VIOLATION, f, None,
+                            "equality of %s is decided by an inequality on the components (a tolerance): that relation is not "
+                            "transitive and identifies different values, so it is not the equality the laws are stated in — and the "
+                            "branch-and-bound searches use `==` to tell which operand `choose` returned and `<=` to prune: values "
+                            "closer than the tolerance are then treated as one" % adt.split("::")[-1]))
         elif comps and not [n_ for n_ in names if n_ not in ("eq", "ne")]:
             out.append(inst("LAW", key, OK, f, None, "componentwise `==` (value equality)"))
         else:
